@@ -113,7 +113,132 @@ def spec_table():
         def keygen(x, c, S, l=l, n=n):
             return "bignKeypairGen", [x.out(n), x.out(2 * n), bign_params(x, l), GEN, tape_from(x, S)]
         T["bignKeypairGen%d" % l] = ((lambda c, n=n: ("tape", n)), keygen)
+    add_bpki(T)
+    add_other_sign(T)
     return T
+
+
+# ---- bpki containers: the password, the key / share and the PBKDF2 key derived from the password are the secrets
+def _cstr(x, s):
+    return x.buf(s.encode() + b"\0")
+
+
+_CONT = {}
+
+
+def _container(x, kind, kl, seed, pwd):
+    """a valid container made in the parent (not part of the recorded call); made once per case, so that both twins start from the same
+    parent state (memWipe keeps a static counter: a library call in the parent between the twins would change what a wipe writes)"""
+    k = (kind, kl, seed, pwd)
+    if k not in _CONT:
+        if len(_CONT) > 64:
+            _CONT.clear()
+        _CONT[k] = _container_make(x, kind, kl, seed, pwd)
+    return _CONT[k]
+
+
+def _container_make(x, kind, kl, seed, pwd):
+    W = "bpkiPrivkeyWrap" if kind == "priv" else "bpkiShareWrap"
+    sec = expand(seed + "ck", kl) if kind == "priv" else bytes([3]) + expand(seed + "ck", kl - 1)
+    ln = x.zero(8)
+    x.call(W, None, ln, None, kl, None, 0, None, 10000)
+    ep = x.out(ln.int())
+    r = x.call(W, ep, x.zero(8), x.buf(sec), kl, x.buf(pwd), len(pwd), x.buf(expand(seed + "salt", 8)), 10000)
+    if r:
+        raise Fail("%s failed while preparing a container: %s" % (W, ename(r)))
+    return ep.read()
+
+
+def _der_len(n):
+    if n < 128:
+        return bytes([n])
+    b = n.to_bytes((n.bit_length() + 7) // 8, "big")
+    return bytes([0x80 | len(b)]) + b
+
+
+def _grow_encdata(cont, newlen, seed):
+    """EncryptedPrivateKeyInfo ::= SEQ { algId SEQ, encData OCTET STRING }: replace encData by newlen generated octets"""
+    assert cont[0] == 0x30
+    i = 2 if cont[1] < 128 else 2 + (cont[1] & 127)
+    assert cont[i] == 0x30
+    j = i + 2 + cont[i + 1] if cont[i + 1] < 128 else i + 2 + (cont[i + 1] & 127) + int.from_bytes(cont[i + 2:i + 2 + (cont[i + 1] & 127)], "big")
+    assert cont[j] == 0x04
+    body = cont[i:j] + b"\x04" + _der_len(newlen) + expand(seed + "grow", newlen)
+    return b"\x30" + _der_len(len(body)) + body
+
+
+def add_bpki(T):
+    for kind, W, U, kls in (("priv", "bpkiPrivkeyWrap", "bpkiPrivkeyUnwrap", (24, 32, 48, 64)), ("share", "bpkiShareWrap", "bpkiShareUnwrap", (17, 25, 33))):
+        def kl_of(c, kls=kls):
+            return kls[c["L"] % len(kls)]
+
+        def wrap_pwd(x, c, S, W=W, kind=kind, kl_of=kl_of):
+            kl = kl_of(c)
+            sec = expand(c["seed"] + "wk", kl) if kind == "priv" else bytes([1 + c["L"] % 16]) + expand(c["seed"] + "wk", kl - 1)
+            return W, [x.out(kl + 120), x.zero(8), x.buf(sec), kl, S, 8 + c["L"] % 30, x.buf(expand(c["seed"] + "salt", 8)), 10000]
+
+        def wrap_key(x, c, S, W=W, kind=kind, kl_of=kl_of):
+            kl = kl_of(c)
+            if kind == "share":
+                S.write(bytes([1 + c["L"] % 16]))      # the share number is public
+            pw = expand(c["seed"] + "pw", 8 + c["L"] % 30)
+            return W, [x.out(kl + 120), x.zero(8), S, kl, x.buf(pw), len(pw), x.buf(expand(c["seed"] + "salt", 8)), 10000]
+
+        def unwrap_badpwd(x, c, S, U=U, kind=kind, kl_of=kl_of):
+            kl = kl_of(c)
+            cont = _container(x, kind, kl, c["seed"], expand(c["seed"] + "truepw", 12))
+            return U, [x.out(kl), x.zero(8), x.buf(cont), len(cont), S, 8 + c["L"] % 30]
+
+        def unwrap_long(x, c, S, U=U, kind=kind, kl_of=kl_of):
+            # malformed container whose encData is longer than any state the function pre-sizes (the error exits behind a grown state)
+            kl = kl_of(c)
+            cont = _grow_encdata(_container(x, kind, kl, c["seed"], expand(c["seed"] + "truepw", 12)), [200, 900, 1000, 1500, 3000, 6000][c["L"] % 6] + c["L"], c["seed"])
+            return U, [x.out(kl + 8000), x.zero(8), x.buf(cont), len(cont), S, 8 + c["L"] % 30]
+        T[W + ":pwd"] = ((lambda c: 8 + c["L"] % 30), wrap_pwd)
+        T[W + ":key"] = ((lambda c, kl_of=kl_of: kl_of(c)), wrap_key)
+        T[U + ":badpwd"] = ((lambda c: 8 + c["L"] % 30), unwrap_badpwd, "ERR_BAD_KEYTOKEN")
+        T[U + ":longdata"] = ((lambda c: 8 + c["L"] % 30), unwrap_long, "any_error")
+
+
+# ---- signing in the other schemes: the private key is the secret (two keys of the same validity class)
+def add_other_sign(T):
+    import pyref.g12s as RG
+    import pyref.dstu as RD
+
+    def dpair(tag, q, n):
+        def f(c):
+            return tuple((int.from_bytes(expand(c["seed"] + tag + str(i), n + 8), "little") % (q - 1) + 1).to_bytes(n, "little") for i in (1, 2))
+        return f
+    for name in ("1.2.643.2.2.35.1", "1.2.643.7.1.2.1.2.1"):
+        M = RG.PARAMS[name]
+
+        def gsign(x, c, S, name=name, M=M):
+            prm = x.out(x.call("x_c16_sizeof", 1, ret="z"))
+            x.call("g12sParamsStd", prm, _cstr(x, name))
+            return "g12sSign", [x.out(2 * M.no), prm, x.buf(expand(c["seed"] + "h", M.no)), S, GEN, x.tape(expand(c["seed"] + "k", M.no)[:-1] + b"\x01", mode=0)]
+        T["g12sSign%d" % M.l] = (("pair", dpair("g", M.q, M.no)), gsign)
+    MD = RD.PARAMS[RD._PFX + "0"]
+
+    def dsign(x, c, S, M=MD):
+        prm = x.out(x.call("x_c16_sizeof", 2, ret="z"))
+        x.call("dstuParamsStd", prm, _cstr(x, M.name))
+        ono = (M.n.bit_length() + 7) // 8
+        return "dstuSign", [x.out(2 * ono + 4), prm, 16 * ono + 32, x.buf(expand(c["seed"] + "h", 32)), 32, S, GEN, x.tape(expand(c["seed"] + "k", 64), mode=0)]
+    T["dstuSign163"] = (("pair", dpair("u", 1 << (MD.n.bit_length() - 1), (MD.p[0] + 7) // 8)), dsign)
+    oid = RB.oid_to_der("1.2.112.0.2.0.34.101.31.81")
+
+    def sign96(x, c, S):
+        P = x.out(8 + 64 * 5 + 8)
+        x.call("bign96ParamsStd", P, _cstr(x, "1.2.112.0.2.0.34.101.45.3.0"))
+        return "bign96Sign", [x.out(34), P, x.buf(oid), len(oid), x.buf(expand(c["seed"], 24)), S, GEN, x.tape(expand(c["seed"] + "k", 24)[:-1] + b"\x01", mode=1)]
+
+    def sign96_2(x, c, S):
+        P = x.out(8 + 64 * 5 + 8)
+        x.call("bign96ParamsStd", P, _cstr(x, "1.2.112.0.2.0.34.101.45.3.0"))
+        return "bign96Sign2", [x.out(34), P, x.buf(oid), len(oid), x.buf(expand(c["seed"], 24)), S, None, 0]
+    q96 = RB.std_params(96)["q"]
+    T["bign96Sign"] = (("pair", dpair("n", q96, 24)), sign96)
+    T["bign96Sign2"] = (("pair", dpair("n", q96, 24)), sign96_2)
 
 
 def tape_from(x, S):
@@ -131,6 +256,8 @@ TABLE = None
 
 
 def secrets_for(c, spec):
+    if isinstance(spec[0], tuple):
+        return spec[0][1](c)
     ln = spec[0](c)
     if isinstance(ln, tuple):
         kind, n = ln
@@ -155,22 +282,41 @@ def run_wipe(ctx, c):
     spec = TABLE[name]
     s1, s2 = secrets_for(c, spec)
     expect = spec[2] if len(spec) > 2 else None
-    results = []
-    for sec in (s1, s2):
-        # identical parent state for both twins: build all arguments afresh from the same case
+    # Both twins are forked from one and the same parent state (identical heap layout: what memWipe writes depends on a static counter
+    # and on block addresses).  The arguments are built twice, once per secret; the second set is then copied over the first inside the
+    # executor, so that the second child is called with the very same addresses and only the secret-derived contents differ.
+    from x import Buf
+    for attempt in (0, 1):
         x.reset()
-        S = x.buf(sec)
-        fn, args = spec[1](x, c, S)
-        if c["failk"]:
-            x.call("x_alloc_reset"); x.call("x_alloc_fail_at", c["failk"])
-        ret, blocks = x.fork_call(fn, *args)
-        if c["failk"]:
-            x.call("x_alloc_reset")
-        results.append((ret, blocks))
+        S1 = x.buf(s1)
+        fn, args1 = spec[1](x, c, S1)
+        n1 = x.nid
+        S2 = x.buf(s2)
+        fn, args2 = spec[1](x, c, S2)
+        n2 = x.nid
+        if n2 - n1 == n1:
+            break           # (a cache filled during the first build changes the number of buffers: build again)
+    if n2 - n1 != n1:
+        raise RuntimeError("argument builder of %s is not repeatable" % name)
+    if c["failk"]:
+        x.call("x_alloc_reset"); x.call("x_alloc_fail_at", c["failk"])
+    r1, b1 = x.fork_call(fn, *args1)
+    nf1 = x.last_failed
+    for i in range(n1):
+        x._cmd("CB %d %d" % (i, n1 + i))
+    r2, b2 = x.fork_call(fn, *args1)
+    nf2 = x.last_failed
+    if c["failk"]:
+        x.call("x_alloc_reset")
+    results = [(r1, b1), (r2, b2)]
+    failed = nf1 and nf2
     (r1, b1), (r2, b2) = results
-    if r1 != r2:
+    if r1 != r2 or nf1 != nf2:
+        ctx.cls("twins_diverge")
         return      # the twins took different exits: not comparable (does not happen for the generated classes)
-    if not c["failk"]:
+    if c["failk"] and failed and r1 == 0:
+        raise Fail("%s returned ERR_OK although allocation #%d made during the call failed" % (name, c["failk"]))
+    if not failed:
         if expect is None and r1 != 0:
             raise Fail("%s returned %s on a valid call" % (name, ename(r1)))
         if expect not in (None, "any_error") and r1 != E[expect]:
@@ -191,16 +337,16 @@ def run_wipe(ctx, c):
             for w in wins:
                 if len(w) == 8 and len(set(w)) > 2 and w in p:
                     raise Fail("%s: freed block #%d contains 8 octets of the caller's secret" % (name, i))
-    ctx.cls(name.split(":")[0], "exit_%s" % ename(r1), "failk%d" % min(c["failk"], 3))
+    ctx.cls(name.split(":")[0], "exit_%s" % ename(r1), "allocfail_%d" % (min(c["failk"], 6) if failed else 0))
     if b1:
-        ctx.nontrivial(name, ename(r1), c["L"] // 16, c["failk"])
+        ctx.nontrivial(name, ename(r1), c["L"] // 16, c["failk"] if failed else 0)
     ctx.sample(c)
 
 
 def strategy():
     names = sorted(spec_table())
     return st.fixed_dictionaries({"fn": st.sampled_from(names), "L": st.one_of(st.sampled_from([0, 1, 16, 17, 32, 48, 64]), st.integers(0, 90)),
-                                  "seed": st.binary(min_size=1, max_size=3).map(bytes.hex), "failk": st.sampled_from([0, 0, 0, 1, 2, 3])})
+                                  "seed": st.binary(min_size=1, max_size=3).map(bytes.hex), "failk": st.sampled_from([0, 0, 0, 1, 2, 3, 4, 5, 6])})
 
 
 def tests(tier):
